@@ -21,7 +21,7 @@ Ints == IF Thorough THEN {0, 1, 2, 7, 9, 10, 19, 99, 100, 123, 999} ELSE {0, 1, 
 Fracs == {<<0, 0>>} \cup {<<w, f>> : w \in 1..(IF Thorough THEN 4 ELSE 3), f \in 0..999} \cup
          (IF Thorough THEN {<<4, f>> : f \in {1, 131, 1313, 2999, 4375, 5001, 7001, 9999, 125, 3125}} ELSE {})
 NoExp == 99
-Exps == {NoExp, 0, 1, 2, -1, -2, -3, 16, 23}          \* 16, 23: beyond 2^53 - the literal is still the nearest DOUBLE, not an exact integer
+Exps == {NoExp, 0, 1, 2, -1, -2, -3, -14, 16, 23}     \* 16, 23: beyond 2^53 - the literal is still the nearest DOUBLE, not an exact integer; -14: tiny magnitudes (their hundredth is below 1e-15)
 FracOk(fr) == fr[2] < Pow10(fr[1]) \/ fr = <<0, 0>>
 
 TextOf(i, fr, e) == Nat2Str(i) \o (IF fr[1] > 0 THEN "." \o DigitsStr(fr[2], fr[1]) ELSE "")
